@@ -299,7 +299,7 @@ theorem triBody_eq (s : List Char) :
 
 theorem unescape_rawNl (rest : List Char) :
     unescapeStr true ('\n' :: rest) = (unescapeStr true rest).map ('\n' :: ·) := by
-  rw [unescapeStr.eq_def]; simp; decide
+  rw [unescapeStr.eq_def]; simp
 
 /-- the triple-quoted multi-line form lexes back to the same string -/
 theorem str_roundtrip_lines (s : List Char) : unescapeStr true (triBody s) = some s := by
@@ -394,29 +394,80 @@ theorem unescape_flatMap (l : List Nat) (hl : ∀ x ∈ l, x < 256) :
     simp only [List.flatMap_cons]
     rw [unescape_escapeByte c (hl c (by simp)), ih (fun x hx => hl x (by simp [hx]))]; rfl
 
-/- Full statement (FALSE for the current code, see `bytes_roundtrip_counterexample`):
-theorem bytes_roundtrip (b : List Nat) (hb : ∀ x ∈ b, x < 256) :
-    unescapeBytes (bytesEscape b) = some b -/
+theorem escapeQuotes_facts : ∀ c : Fin 256, c.val ≠ 34 →
+    escapeQuotes (bytesEscapeByte 34 c.val) = bytesEscapeByte 39 c.val := by
+  decide +kernel
 
-/-- bytes values lex back, unless `repr()` would have chosen double quotes (the value holds `'` and
-no `"`): the colourizer strips repr's quotes and always writes single quotes. -/
-theorem bytes_roundtrip_partial (b : List Nat) (hb : ∀ x ∈ b, x < 256)
-    (hq : ¬ (b.contains 39 = true ∧ b.contains 34 = false)) :
-    unescapeBytes (bytesEscape b) = some b := by
-  have : bytesQuote b = 39 := by
-    unfold bytesQuote
-    by_cases h1 : b.contains 39 = true <;> by_cases h2 : b.contains 34 = true <;> simp_all
+theorem escapeQuotes_flatMap (l : List Nat) (hl : ∀ x ∈ l, x < 256) (hq : ∀ x ∈ l, x ≠ 34) :
+    escapeQuotes (l.flatMap (bytesEscapeByte 34)) = l.flatMap (bytesEscapeByte 39) := by
+  induction l with
+  | nil => rfl
+  | cons c l ih =>
+    have h1 := escapeQuotes_facts ⟨c, hl c (by simp)⟩ (hq c (by simp))
+    simp only at h1
+    simp only [List.flatMap_cons]
+    rw [← ih (fun x hx => hl x (by simp [hx])) (fun x hx => hq x (by simp [hx])), ← h1]
+    simp [escapeQuotes]
+
+/-- whatever quote `repr()` picks, `_bytes_escape` produces the body of the single-quoted literal -/
+theorem bytesEscape_eq (b : List Nat) (hb : ∀ x ∈ b, x < 256) :
+    bytesEscape b = b.flatMap (bytesEscapeByte 39) := by
   unfold bytesEscape
-  rw [this]
+  by_cases hq : bytesQuote b = 34
+  · have h34 : ∀ x ∈ b, x ≠ 34 := by
+      intro x hx e; subst e
+      unfold bytesQuote at hq
+      have : b.contains 34 = true := by simpa using hx
+      simp [this] at hq
+    simp only [hq, if_true]
+    exact escapeQuotes_flatMap b hb h34
+  · have : bytesQuote b = 39 := by
+      unfold bytesQuote at hq ⊢
+      split <;> simp_all
+    simp [this]
+
+/-- **Pyval.bytes_roundtrip**: for every bytes value, Python's lexing of `b'` + `_bytes_escape(b)` +
+`'` gives back the value (full since 257fc5a) -/
+theorem bytes_roundtrip (b : List Nat) (hb : ∀ x ∈ b, x < 256) :
+    unescapeBytes (bytesEscape b) = some b := by
+  rw [bytesEscape_eq b hb]
   exact unescape_flatMap b hb
 
 example : unescapeBytes (bytesEscape [97, 34, 39, 0, 255, 10]) = some [97, 34, 39, 0, 255, 10] := by
   decide
+example : bytesEscape [105, 116, 39, 115] = "it\\'s".toList := by decide
 
-/-- `b"it's"` is displayed as `b'it's'` -/
-theorem bytes_roundtrip_counterexample :
-    bytesEscape [105, 116, 39, 115] = "it's".toList ∧
-    unescapeBytes (bytesEscape [105, 116, 39, 115]) = none := by decide
+/-- HISTORICAL (before 257fc5a): `b"it's"` was displayed as `b'it's'` -/
+theorem bytes_roundtrip_old_counterexample :
+    bytesEscapeOld [105, 116, 39, 115] = "it's".toList ∧
+    unescapeBytes (bytesEscapeOld [105, 116, 39, 115]) = none := by decide
+
+/-- docutils removes NUL characters from `Text` nodes; since e938da2 `_str_escape` never emits one … -/
+theorem strEscape_no_nul (s : List Char) : Char.ofNat 0 ∉ strEscape s := by
+  unfold strEscape
+  intro h
+  rw [List.mem_flatMap] at h
+  obtain ⟨c, _, hc⟩ := h
+  unfold strEscapeChar at hc
+  repeat' split at hc
+  all_goals (first | (revert hc; decide) | skip)
+  rename_i h8
+  simp at hc
+  exact h8 hc.symm
+
+/-- … and `repr(bytes)` never did -/
+theorem bytesEscape_no_nul (b : List Nat) (hb : ∀ x ∈ b, x < 256) : Char.ofNat 0 ∉ bytesEscape b := by
+  rw [bytesEscape_eq b hb]
+  intro h
+  rw [List.mem_flatMap] at h
+  obtain ⟨c, hc, hm⟩ := h
+  have : ∀ c : Fin 256, Char.ofNat 0 ∉ bytesEscapeByte 39 c.val := by decide +kernel
+  exact this ⟨c, hb c hc⟩ hm
+
+/-- HISTORICAL (before e938da2): `'\x00'` was displayed as `''` -/
+theorem nul_dropped_old_counterexample :
+    astext (strEscapeOld [Char.ofNat 0]) = [] ∧ astext (strEscape [Char.ofNat 0]) = "\\x00".toList := by
+  decide
 
 /-! ## 3. the displayed text as a concrete syntax tree
 
@@ -464,9 +515,8 @@ mutual
 def toDoc (T : PrecTable) (pp : Option Nat) : Expr → Doc
   | .name s => .atom s
   | .dotted parts => .atom (joinDots parts)
-  | .constInt n =>
-    if (Nat.toDigits 10 n).length > maxStrDigits then .junk [] else .atom (Nat.toDigits 10 n)
-  | .constNum t => .atom t
+  | .constInt n => .atom (intText n)
+  | .constNum t => .atom (replaceInf T.infExp t)
   | .constStr s => .atom ('\'' :: (strEscape s ++ ['\'']))
   | .constBytes b => .atom ('b' :: '\'' :: (bytesEscape b ++ ['\'']))
   | .constName k => .atom k.text
@@ -476,7 +526,7 @@ def toDoc (T : PrecTable) (pp : Option Nat) : Expr → Doc
   | .binary op l r =>
     wrapIf (needParen pp (T.bin op))
       (.binary false op (toDoc T (some (T.bin op + (if op = .pow then 1 else 0))) l)
-        (toDoc T (some (T.bin op + (if op = .pow then 1 else 0))) r))
+        (toDoc T (some (T.bin op + 1)) r))
   | .boolop op xs =>
     wrapIf (needParen pp (T.bool op)) (.boolop op (toDocList T (some (T.bool op + 1)) xs))
   | .list xs => .list (toDocList T (some T.highest) xs)
@@ -523,8 +573,8 @@ atom *means* is `str_roundtrip`) -/
 def canon : Expr → Doc
   | .name s => .atom s
   | .dotted parts => .atom (joinDots parts)
-  | .constInt n => .atom (Nat.toDigits 10 n)
-  | .constNum t => .atom t
+  | .constInt n => .atom (intText n)
+  | .constNum t => .atom (replaceInf LT.infExp t)
   | .constStr s => .atom ('\'' :: (strEscape s ++ ['\'']))
   | .constBytes b => .atom ('b' :: '\'' :: (bytesEscape b ++ ['\'']))
   | .constName k => .atom k.text
@@ -738,7 +788,6 @@ theorem tag_toDoc (T : PrecTable) (pp : Option Nat) (e : Expr) : (toDoc T pp e).
   | unary op x => rw [toDoc]; exact tag_wrapIf _ _ (by simp [Doc.tag])
   | binary op l r => rw [toDoc]; exact tag_wrapIf _ _ (by simp [Doc.tag])
   | boolop op xs => rw [toDoc]; exact tag_wrapIf _ _ (by simp [Doc.tag])
-  | constInt n => simp only [toDoc]; split <;> simp [Doc.tag, Expr.tag]
   | subscript v s => cases s <;> simp [toDoc, Doc.tag, Expr.tag]
   | astor a =>
     simp only [toDoc]
@@ -808,9 +857,7 @@ theorem toDoc_flatten (T : PrecTable) :
     ∀ (e : Expr) (pp : Option Nat), (toDoc T pp e).flatten = flat (compile T pp e)
   | .name s, pp => by simp [toDoc, compile, Doc.flatten, flat]
   | .dotted ps, pp => by simp [toDoc, compile, Doc.flatten, flat]
-  | .constInt n, pp => by
-    simp only [toDoc, compile]
-    split <;> simp [Doc.flatten, flat]
+  | .constInt n, pp => by simp [toDoc, compile, Doc.flatten, flat]
   | .constNum t, pp => by simp [toDoc, compile, Doc.flatten, flat]
   | .constStr s, pp => by simp [toDoc, compile, Doc.flatten, flat, flatList, strProg]
   | .constBytes b, pp => by simp [toDoc, compile, Doc.flatten, flat, flatList, bytesProg]
@@ -824,7 +871,7 @@ theorem toDoc_flatten (T : PrecTable) :
     simp [toDoc, compile, flatten_wrapIf, flat_parenIf, Doc.flatten, flat, flatList, ih]
   | .binary op l r, pp => by
     have ihl := toDoc_flatten T l (some (T.bin op + (if op = .pow then 1 else 0)))
-    have ihr := toDoc_flatten T r (some (T.bin op + (if op = .pow then 1 else 0)))
+    have ihr := toDoc_flatten T r (some (T.bin op + 1))
     simp [toDoc, compile, flatten_wrapIf, flat_parenIf, Doc.flatten, flat, flatList, ihl, ihr]
   | .boolop op xs, pp => by
     have ih := toDocList_flatten T xs (some (T.bool op + 1))
@@ -1058,20 +1105,18 @@ def fits (T : PrecTable) (pp : Option Nat) (n : Nat) (e : Expr) : Bool :=
   | none => true
   | some k => needParen pp (k.prec T) || decide (n ≤ Grammar.kidLevel k)
 
-theorem fits_slot (s : Slot) (e : Expr)
-    (h : ∀ k, kidOf e = some k → rightEqual LT s k = false) :
+theorem fits_slot (s : Slot) (e : Expr) :
     fits LT (some (s.pp LT)) (Grammar.slotMin s) e = true := by
   unfold fits
   cases hk : kidOf e with
   | none => rfl
   | some k =>
-    have ht := paren_table_exact s (Slot.mem_all s) k (Kid.mem_all k)
-    rw [h k hk] at ht
-    simp only [decision, Grammar.needsParens] at ht
     by_cases hl : Grammar.slotMin s ≤ Grammar.kidLevel k
     · simp [hl]
-    · have : Grammar.kidLevel k < Grammar.slotMin s := by omega
-      simp [this] at ht
+    · have hn : Grammar.needsParens s k = true := by
+        simp only [Grammar.needsParens, decide_eq_true_eq]; omega
+      have ht := paren_table s k hn
+      simp only [decision] at ht
       simp [ht]
 
 theorem fits_highest (n : Nat) (e : Expr) : fits LT (some LT.highest) n e = true := by
@@ -1092,33 +1137,13 @@ theorem fits_one (pp : Option Nat) (e : Expr) : fits LT pp 1 e = true := by
   | none => rfl
   | some k => simp [one_le_kidLevel k]
 
-/-- the right operand is a binary operator of the same precedence as its non-`**` parent -/
-def rightEq (T : PrecTable) (op : BOp) : Expr → Bool
-  | .binary op' _ _ => op ≠ .pow && T.bin op == T.bin op'
-  | _ => false
-
-theorem rightEq_spec (op : BOp) (r : Expr) (h : rightEq LT op r = false) :
-    ∀ k, kidOf r = some k → rightEqual LT (.binR op) k = false := by
-  intro k hk
-  cases r <;> simp [kidOf] at hk
-  all_goals subst hk
-  all_goals simp_all [rightEqual, rightEq]
-
-theorem binL_not_rightEqual (op : BOp) (k : Kid) : rightEqual LT (.binL op) k = false := by
-  simp [rightEqual]
-theorem unary_not_rightEqual (op : UOp) (k : Kid) : rightEqual LT (.unary op) k = false := by
-  simp [rightEqual]
-theorem bool_not_rightEqual (op : LOp) (k : Kid) : rightEqual LT (.boolArg op) k = false := by
-  simp [rightEqual]
-
 mutual
 /-- The trees for which the read-back theorem is proved.  Besides the shape CPython's parser
 guarantees (operand counts, equal list lengths, `*x` only as an element or argument, keywords only
 in calls), it EXCLUDES the inputs on which the current colourizer is wrong:
-  * a non-`**` binary operator whose right operand is a binary operator of equal precedence,
   * a one-element tuple (also as subscript index),
   * an empty tuple as subscript index,
-  * an `int` too long for `str()`, and a delegated node on which astor raised. -/
+  * a delegated node on which astor raised (`??`). -/
 def okTree (T : PrecTable) (star : Bool) : Expr → Bool
   | .name _ => true
   | .dotted _ => true
@@ -1128,9 +1153,9 @@ def okTree (T : PrecTable) (star : Bool) : Expr → Bool
   | .constName _ => true
   | .ellipsis => true
   | .opaque _ => true
-  | .constInt n => decide ((Nat.toDigits 10 n).length ≤ maxStrDigits)
+  | .constInt _ => true
   | .unary _ x => okTree T false x
-  | .binary op l r => okTree T false l && okTree T false r && !rightEq T op r
+  | .binary _ l r => okTree T false l && okTree T false r
   | .boolop _ xs => decide (2 ≤ xs.length) && okList T false xs
   | .tuple xs => decide (xs.length ≠ 1) && okList T true xs
   | .list xs => okList T true xs
@@ -1331,10 +1356,7 @@ theorem derives_core (e : Expr) (pp : Option Nat) (n : Nat) (star : Bool)
   | .constName k, _, _, _ => simp [toDoc, canon, parseDoc]
   | .ellipsis, _, _, _ => simp [toDoc, canon, parseDoc]
   | .opaque t, _, _, _ => simp [toDoc, canon, parseDoc]
-  | .constInt k, hok, _, _ =>
-    have : ¬ (Nat.toDigits 10 k).length > maxStrDigits := by
-      simp only [okTree, decide_eq_true_eq] at hok; omega
-    simp [toDoc, canon, parseDoc, this]
+  | .constInt k, _, _, _ => simp [toDoc, canon, parseDoc]
   | .unknown, hok, _, _ => simp [okTree] at hok
   | .absent, hok, _, _ => simp [okTree] at hok
   | .keyword a v, hok, _, _ => simp [okTree] at hok
@@ -1347,13 +1369,13 @@ theorem derives_core (e : Expr) (pp : Option Nat) (n : Nat) (star : Bool)
       simp [fits, kidOf, Kid.prec, Grammar.kidLevel, hb] at hfit'
       exact of_decide_eq_true hfit'
     · intro m hm
-      have hf := fits_slot (.unary op) x (fun k _ => unary_not_rightEqual op k)
+      have hf := fits_slot (.unary op) x
       have ih := derives_core x (some (LT.unary op)) op.level false hok
         (fun h => absurd h ((tag_of_ok LT false x hok).2.2 rfl)) (by simpa [Slot.pp, Grammar.slotMin] using hf)
       simp [parseDoc, hm, ih]
   | .binary op l r, hok, _, hfit =>
-    simp only [okTree, Bool.and_eq_true, Bool.not_eq_true'] at hok
-    obtain ⟨⟨hl, hr⟩, hre⟩ := hok
+    simp only [okTree, Bool.and_eq_true] at hok
+    obtain ⟨hl, hr⟩ := hok
     rw [toDoc, canon]
     refine parse_wrapIf _ _ _ n op.level (by cases op <;> decide) ?_ ?_
     · intro hb
@@ -1361,12 +1383,12 @@ theorem derives_core (e : Expr) (pp : Option Nat) (n : Nat) (star : Bool)
       simp [fits, kidOf, Kid.prec, Grammar.kidLevel, hb] at hfit'
       exact of_decide_eq_true hfit'
     · intro m hm
-      have hfl := fits_slot (.binL op) l (fun k _ => binL_not_rightEqual op k)
-      have hfr := fits_slot (.binR op) r (rightEq_spec op r hre)
+      have hfl := fits_slot (.binL op) l
+      have hfr := fits_slot (.binR op) r
       have ihl := derives_core l (some (LT.bin op + (if op = .pow then 1 else 0))) op.leftMin false hl
         (fun h => absurd h ((tag_of_ok LT false l hl).2.2 rfl))
         (by simpa [Slot.pp, Grammar.slotMin] using hfl)
-      have ihr := derives_core r (some (LT.bin op + (if op = .pow then 1 else 0))) op.rightMin false hr
+      have ihr := derives_core r (some (LT.bin op + 1)) op.rightMin false hr
         (fun h => absurd h ((tag_of_ok LT false r hr).2.2 rfl))
         (by simpa [Slot.pp, Grammar.slotMin] using hfr)
       simp [parseDoc, hm, ihl, ihr]
@@ -1381,7 +1403,7 @@ theorem derives_core (e : Expr) (pp : Option Nat) (n : Nat) (star : Bool)
     · intro m hm
       have ih := derives_each xs (some (LT.bool op + 1)) (op.level + 1) false hok.2 (by simp)
         (fun x _ => by
-          have hf := fits_slot (.boolArg op) x (fun k _ => bool_not_rightEqual op k)
+          have hf := fits_slot (.boolArg op) x
           simpa [Slot.pp, Grammar.slotMin] using hf)
       simp [parseDoc, hm, ih, length_toDocList, hok.1, sequence_map_some]
   | .list xs, hok, _, _ =>
@@ -1604,7 +1626,8 @@ shape CPython's parser produces, the displayed text, read by Python's grammar, i
 theorem render_groups (e : Expr) (h : wellShaped e) :
     ∃ d : Doc, d.flatten = render LT e ∧ parseDoc 1 d = some (canon e)
 
-It holds on `okTree`, which is `wellShaped` minus the four exclusions listed at `okTree`. -/
+It holds on `okTree`, which is `wellShaped` minus the exclusions listed at `okTree` (one-element
+tuples, the empty tuple index, `??`). -/
 
 /-- **Pyval.render_groups_partial**: the text `colorize_inline_pyval` shows is the spelling of a
 concrete syntax tree that Python's grammar reads back as the source expression — operator
@@ -1638,18 +1661,27 @@ example : render LT
     = "(a+-b)*f((a, (b or c)), *c, k={a: b**c, **c}, **a[b, (x < y)])".toList := by
   decide +kernel
 
-/-- `a-(b-c)`, `a/(b*c)`, `a-(b+c)` are displayed exactly like `(a-b)-c`, `(a/b)*c`, `(a-b)+c`:
-two different expressions, one text — and the text reads back as the second. -/
+/-- since b6b97a7: `a-(b-c)`, `a/(b*c)`, `a-(b+c)` keep their parentheses, are inside `okTree`, and
+differ from `(a-b)-c` … (the HISTORICAL table-level counterexample is `paren_table_old_counterexample`) -/
+example :
+    render LT (.binary .sub a (.binary .sub b c)) = "a-(b-c)".toList ∧
+    render LT (.binary .sub (.binary .sub a b) c) = "a-b-c".toList ∧
+    render LT (.binary .div a (.binary .mult b c)) = "a/(b*c)".toList ∧
+    render LT (.binary .sub a (.binary .add b c)) = "a-(b+c)".toList ∧
+    render LT (.binary .pow a (.binary .pow b c)) = "a**(b**c)".toList ∧
+    okTree LT false (.binary .sub a (.binary .sub b c)) = true := by
+  refine ⟨?_, ?_, ?_, ?_, ?_, ?_⟩ <;> decide +kernel
+
+/-- what keeps the full statement false: a one-element tuple has the text of a parenthesised group
+(`(a,)` is displayed as `(a)`, which reads back as `a`), and an empty tuple index leaves `x[]` -/
 theorem render_groups_counterexample :
-    (render LT (.binary .sub a (.binary .sub b c)) = "a-b-c".toList ∧
-      render LT (.binary .sub (.binary .sub a b) c) = "a-b-c".toList) ∧
-    (render LT (.binary .div a (.binary .mult b c)) = "a/b*c".toList ∧
-      render LT (.binary .mult (.binary .div a b) c) = "a/b*c".toList) ∧
-    (render LT (.binary .sub a (.binary .add b c)) = "a-b+c".toList ∧
-      render LT (.binary .add (.binary .sub a b) c) = "a-b+c".toList) ∧
-    parseDoc 1 (toDoc LT none (.binary .sub a (.binary .sub b c))) = none ∧
-    okTree LT false (.binary .sub a (.binary .sub b c)) = false := by
-  refine ⟨⟨?_, ?_⟩, ⟨?_, ?_⟩, ⟨?_, ?_⟩, ?_, ?_⟩ <;> decide +kernel
+    render LT (.tuple [a]) = "(a)".toList ∧
+    parseDoc 1 (toDoc LT none (.tuple [a])) = some (.atom ['a']) ∧
+    okTree LT false (.tuple [a]) = false ∧
+    render LT (.subscript (.name ['x']) (.tuple [])) = "x[]".toList ∧
+    parseDoc 1 (toDoc LT none (.subscript (.name ['x']) (.tuple []))) = none ∧
+    okTree LT false (.subscript (.name ['x']) (.tuple [])) = false := by
+  refine ⟨?_, ?_, ?_, ?_, ?_, ?_⟩ <;> first | decide +kernel | rfl
 
 /- Full statement (FALSE for the current code): a tuple is displayed as a tuple in every context:
 
